@@ -149,6 +149,15 @@ def run(tier, seed):
     defs = []
     for i in range(n):
         defs.append(g.wellformed())
+    # unit attributes need not form one contiguous block: other attributes and doc comments in between
+    for i in range(n // 6):
+        d = copy.deepcopy(g.wellformed(rng.choice(["ref", "ref", "noref", "derived"])))
+        for _ in range(1 + rng.below(2)):
+            d.attrs.insert(rng.below(len(d.attrs) + 1), defgen.OtherAttr(rng.choice(
+                ["#[allow(dead_code)]", "/// a line of documentation in between", '#[doc = "interleaved"]',
+                 "#[derive(Default)]", "#[must_use]"])))
+        d.tag = "wellformed:interleaved"
+        defs.append(d)
     defs += adversarial_scales(g, rng, n // 6)
     for _ in range(max(1, n // 150)):
         defs += [d for _, d in defgen.defects(g, rng)]
